@@ -25,9 +25,10 @@ def one(args):
     lost = bk - {f.key() for f in ctx.findings}
     bu = {u for u in base.unknowns}
     unk = [u for u in ctx.unknowns if u not in bu]
-    out = ["VIOLATION " + f.line()[:420] for f in new] + ["UNKNOWN %s %s" % (u[0], u[1][:420]) for u in unk]
+    out = ["BASE-UNKNOWN (the clean tree is undecided!) %s %s" % (u[0], u[1][:300]) for u in base.unknowns]
+    out += ["VIOLATION " + f.line()[:420] for f in new] + ["UNKNOWN %s %s" % (u[0], u[1][:420]) for u in unk]
     out += ["LOST-FINDING %s" % (k,) for k in lost]
-    return prop, ("VIOLATION" if new else ("UNKNOWN" if unk else ("LOST" if lost else "-"))), out
+    return prop, ("VIOLATION" if new else ("UNKNOWN" if (unk or base.unknowns) else ("LOST" if lost else "-"))), out
 
 
 def run(patch, props=None, quiet=False):
